@@ -154,6 +154,32 @@ func modelPgEncode(e *Exec, c *frame, fn *ssa.Function, a []Value) Value {
 			return Tuple{e.appendBytes(buf, val.V.(Slice)), Iface{}}
 		}
 	}
+	// a time.Time into a date/time column, by contract: the encoding is a
+	// function of the instant AND — for timestamp, date and time, which pgx
+	// writes from the value's wall clock in its own Location — of the Location;
+	// for timestamptz of the instant alone. The model's output is a digest of
+	// exactly those components (not pgx's text), so that a harness can compare
+	// the wire with Encode of the value the handler gave (natively: real pgx).
+	if n, ok := val.T.(*types.Named); ok && n.Obj().Pkg() != nil && n.Obj().Pkg().Path() == "time" && n.Obj().Name() == "Time" {
+		if oc := oid.V; oid.K && (oc == 1114 || oc == 1082 || oc == 1083 || oc == 1184) {
+			tv := val.V.(Struct)
+			st := e.newStore(byteT, i64(16))
+			for k := 0; k < 8; k++ {
+				*st.cell(k) = e.norm(sym.Trunc(sym.Lshr(tv[0].(sym.Sc), sym.Const(64, uint64(56-8*k))), 8))
+				*st.cell(8 + k) = e.norm(sym.Trunc(sym.Lshr(tv[1].(sym.Sc), sym.Const(64, uint64(56-8*k))), 8))
+			}
+			out := e.appendBytes(buf, Slice{St: st, Len: st.N, Cap: st.N})
+			if oc != 1184 {
+				loc, _ := tv[2].(*Value)
+				if loc == nil {
+					out = e.appendBytes(out, litString("UTC"))
+				} else {
+					out = e.appendBytes(out, (*loc).(Struct)[0].(Slice))
+				}
+			}
+			return Tuple{out, Iface{}}
+		}
+	}
 	// text-like OIDs only
 	textLike := sym.Or(sym.Eq(oid, sym.Const(32, oidText)), sym.Eq(oid, sym.Const(32, oidVarchar)))
 	if !e.Branch(textLike) {
